@@ -181,8 +181,18 @@ def check_property_file(ctx, pid, gen_status, gens_needed):
             good = True
             bad = []
         else:
-            names = re.findall(r'^([A-Za-z_][\w.]*)\s*(?::|$)', b[len('Axioms:'):], re.M)
-            bad = [x for x in names if x not in ALLOWED_AXIOMS and not x.startswith(PRIM_PREFIXES)]
+            entries = re.findall(r'^([A-Za-z_][\w.\']*)\s*:\s*([^\n]*(?:\n\s+[^\n]*)*)', b[len('Axioms:'):], re.M)
+            names = [e[0] for e in entries]
+
+            def primitive(name, ty):
+                # machine floats / 63-bit integers: primitive types and operations, not axioms of this development
+                if name.startswith(PRIM_PREFIXES) or name in ('float', 'int'):
+                    return True
+                toks = set(re.findall(r'[A-Za-z_][\w.]*', ty))
+                return '.' not in name and bool(toks & {'float', 'PrimInt63.int', 'int'}) and toks <= {
+                    'float', 'PrimInt63.int', 'int', 'bool', 'Set', 'PrimFloat.float', 'float_comparison', 'float_class',
+                    'PrimFloat.float_comparison', 'PrimFloat.float_class', 'comparison', 'FloatClass.float_class', 'carry', 'prod'}
+            bad = [n_ for n_, ty in entries if n_ not in ALLOWED_AXIOMS and not primitive(n_, ty)]
             ctx.assumptions[t] = names
             good = not bad
         if t in thms:
